@@ -119,9 +119,21 @@ def run(ctx):
         for name, mk, kind in regs(seed, centre):
             if "GPR" in name and scale != "unit":
                 continue      # scikit-learn's GaussianProcessRegressor itself returns NaN for targets with a huge offset: third-party numerics, not the wrapper
-            rc = {"target_scale": scale, "query_dtype": xq_dtype, "regressor": name, "X": X.tolist(), "y": [None if np.isnan(v) else v for v in y], "Xq": Xq.tolist(), "seed": seed}
+            # the missing-label sentinel is varied as well (NaN / None in an object array / a reserved number): every clause of the
+            # statement is about "labeled samples", whatever marks the others
+            ml_mode = ["nan", "nan", "none", "number"][(h // 3) % 4]
+            rc = {"target_scale": scale, "query_dtype": xq_dtype, "regressor": name, "X": X.tolist(), "y": [None if np.isnan(v) else v for v in y], "Xq": Xq.tolist(), "seed": seed,
+                  "missing_label": ml_mode}
             try:
-                m = mk().fit(X, y)
+                y_fit, ml_val = y, np.nan
+                if ml_mode == "none":
+                    y_fit, ml_val = np.array([None if np.isnan(v) else float(v) for v in y], dtype=object), None
+                elif ml_mode == "number":
+                    y_fit, ml_val = np.where(np.isnan(y), -999.0, y), -999.0
+
+                def mkml(mk=mk, ml_val=ml_val):
+                    return mk().set_params(missing_label=ml_val)
+                m = mkml().fit(X, y_fit)
                 mu = np.asarray(m.predict(Xq), dtype=float)
             except Exception as e:
                 if kind in ("nw", "improper") and nlab == 0:
@@ -175,7 +187,7 @@ def run(ctx):
                 for s in (0, 1, 7):
                     a = m.sample_y(Xq, n_samples=5, random_state=s)
                     b = m.sample_y(Xq, n_samples=5, random_state=s)
-                    c = mk().fit(X, y).sample_y(Xq, n_samples=5, random_state=s)
+                    c = mkml().fit(X, y_fit).sample_y(Xq, n_samples=5, random_state=s)
                     if np.asarray(a).shape != (len(Xq), 5):
                         ctx.violation(name, "sample_shape", f"sample_y shape {np.asarray(a).shape}", rc)
                         break
